@@ -13,8 +13,8 @@ _W = (['w-cases-f32', 'w-cases-f80'] +
 SPEC = dict(
     harness=['h_linalg_fact.c'],
     # the default (double) build runs the full harness; the other two real widths run a compact type-generic companion
-    configs=lambda tier: [dict(name='f64'), dict(name='f64-clang', libcc='clang', nworkers=4, of=8), dict(name='f32', real=4, harness=['h_linalg_fact_w.c']), dict(name='f80', real=16, harness=['h_linalg_fact_w.c'])],
-    parallel_configs=4,
+    configs=lambda tier: [dict(name='f64'), dict(name='f64-clang', libcc='clang', nworkers=4, of=8), dict(name='f64-o2', libflavour='san-o2', libdrop=['-fno-strict-aliasing'], nworkers=4, of=8), dict(name='f32', real=4, harness=['h_linalg_fact_w.c']), dict(name='f80', real=16, harness=['h_linalg_fact_w.c'])],
+    parallel_configs=5,
     level='exploration',
     rule='one case = one matrix of one structure class run through one family (a_real_plu / a_real_ldl / a_real_llt); every library call '
          'in it is one evaluation. On reported success: p is a permutation with parity == sign, every stored multiplier |l| <= 1, the '
